@@ -22,7 +22,7 @@ import (
 type Ev struct {
 	Seq  int    `json:"seq"`
 	Us   int64  `json:"us"`
-	K    string `json:"k"`    // Acc Addr FirstByte ReqRead Fwd RTLeave WrCall Wrote SockClose ClientGone CtxExpire SdCall SdRet ClCall ClRet LClose SrvRet ClosingSeen CntIs
+	K    string `json:"k"`    // Acc Addr FirstByte ReqRead Fwd RTLeave WrCall Wrote SockClose SockCloseC ClientGone CtxExpire SdCall SdRet ClCall ClRet LClose SrvRet ClosingSeen CntIs
 	Conn int    `json:"conn"` // connection id (accept order), -1 if none
 	A    bool   `json:"a,omitempty"`
 	B    bool   `json:"b,omitempty"`
@@ -260,7 +260,12 @@ func (c *Conn) Write(b []byte) (int, error) {
 }
 
 func (c *Conn) Close() error {
-	c.rig.Log.Add(Ev{K: "SockClose", Conn: c.id})
+	// closed by the connection's own handler (deferred conn.Close()) or by somebody else (Proxy.Close)
+	k := "SockCloseC"
+	if c.rig.connOfGoroutine() == c.id {
+		k = "SockClose"
+	}
+	c.rig.Log.Add(Ev{K: k, Conn: c.id})
 	c.closeOnce.Do(func() { close(c.closed) })
 	return c.Conn.Close()
 }
